@@ -4,12 +4,14 @@ import time
 from vlib.common import finish
 from vlib.bounded import Bounded
 from harness import c14 as driver
+from checks._proof import proof_subobligations
 
 PROP = 'C14'
 
 
 def run():
     t0 = time.time()
+    pv, pu, pe, ppart, passumed = proof_subobligations(PROP, ['contracts.c14_colors'], ['ak.color'])
     b = Bounded(PROP, 'harness.c14')
     driver.run(b)
     s_descr, n_vp, c_grid, c_names = driver.describe(b.tier)
@@ -31,9 +33,15 @@ def run():
              "same history without the losing registrations. evaluations = histories executed; distinct = "
              "description sets; non-trivial = a set in which some id has a registered parent (chain length >= 2), "
              "every set being run with >= 1 later registration",
-        exhaustive=True)
-    return finish(PROP, 'exploration', b.violations(), [], b.errors, cov,
-                  ["pre-condition: descriptions are generated from the documented grammar "
+        exhaustive=True, extra=ppart)
+    seen = set()
+    viol = []
+    for v in pv + b.violations():
+        if v.key not in seen:
+            seen.add(v.key)
+            viol.append(v)
+    return finish(PROP, 'exploration', viol, pu, pe + b.errors, cov, passumed + [
+                   "pre-condition: descriptions are generated from the documented grammar "
                    "'[PARENT:][FG[/BG]][:modifiers]' and reference only earlier ids, an unknown id or a built-in id "
                    "(acyclic, syntactically valid)",
                    "ColorFmt(fg, bg_color=bg, **mods) is the reference formatter (its own contract is C09)",
